@@ -202,28 +202,28 @@ func rep(s string, n int) string { return strings.Repeat(s, n) }
 
 func structuralFamilies(n int) map[string]string {
 	return map[string]string{
-		"nest_kept_b":               rep("<b>", n) + "x" + rep("</b>", n),
-		"nest_dropped_bare_a":       rep("<a>", n) + "x" + rep("</a>", n),
-		"nest_skipped_object":       rep("<object>", n) + "x" + rep("</object>", n),
-		"nest_unknown":              rep("<zz>", n) + "x" + rep("</zz>", n),
-		"kept_in_dropped_same_name": rep("<a>", n) + rep(`<a href="/x">`, n) + "x" + rep("</a>", 2*n),
-		"alternating_same_name":     rep(`<a><a href="/x">`, n) + "x" + rep("</a>", 2*n),
+		"nest_kept_b":                rep("<b>", n) + "x" + rep("</b>", n),
+		"nest_dropped_bare_a":        rep("<a>", n) + "x" + rep("</a>", n),
+		"nest_skipped_object":        rep("<object>", n) + "x" + rep("</object>", n),
+		"nest_unknown":               rep("<zz>", n) + "x" + rep("</zz>", n),
+		"kept_in_dropped_same_name":  rep("<a>", n) + rep(`<a href="/x">`, n) + "x" + rep("</a>", 2*n),
+		"alternating_same_name":      rep(`<a><a href="/x">`, n) + "x" + rep("</a>", 2*n),
 		"kept_other_name_in_dropped": rep("<a>", n) + rep("<b>", n) + "x" + rep("</b>", n) + rep("</a>", n),
-		"many_attributes":           "<p " + rep(`title="a" `, n) + ">x</p>",
-		"many_distinct_attributes":  "<p " + manyAttrs(n) + ">x</p>",
-		"stray_end_tags":            rep("</b>", n) + rep("</a>", n),
-		"unclosed_open_tags":        rep("<i>", n),
-		"escapes_in_style_value":    `<p style="font-family: ` + rep(`\61 `, n) + `">x</p>`,
-		"many_declarations":         `<p style="` + rep("color: red;", n) + `">x</p>`,
-		"long_data_attribute_name":  "<p data-" + rep("a", n) + `="1" data-` + rep("data-", n) + `x="2">x</p>`,
-		"pattern_elements":          rep("<my-x>", n) + "x" + rep("</my-x>", n),
-		"rel_tokens":                `<a href="http://x.y/" rel="` + rep("nofollowx ", n) + `">x</a>`,
-		"sandbox_tokens":            `<iframe sandbox="` + rep("allow-scripts x ", n) + `"></iframe>`,
-		"long_url_query":            `<a href="http://x.y/?` + rep("a=1&", n) + `">x</a>`,
-		"comments":                  rep("<!-- c -->", n),
-		"entities":                  rep("&amp;&#x3c;&notit;", n),
-		"void_dropped_bare":         rep("<img>", n) + rep("</a>", n),
-		"frames_in_p":               "<p>" + rep("<frame>", n) + "x</p>",
+		"many_attributes":            "<p " + rep(`title="a" `, n) + ">x</p>",
+		"many_distinct_attributes":   "<p " + manyAttrs(n) + ">x</p>",
+		"stray_end_tags":             rep("</b>", n) + rep("</a>", n),
+		"unclosed_open_tags":         rep("<i>", n),
+		"escapes_in_style_value":     `<p style="font-family: ` + rep(`\61 `, n) + `">x</p>`,
+		"many_declarations":          `<p style="` + rep("color: red;", n) + `">x</p>`,
+		"long_data_attribute_name":   "<p data-" + rep("a", n) + `="1" data-` + rep("data-", n) + `x="2">x</p>`,
+		"pattern_elements":           rep("<my-x>", n) + "x" + rep("</my-x>", n),
+		"rel_tokens":                 `<a href="http://x.y/" rel="` + rep("nofollowx ", n) + `">x</a>`,
+		"sandbox_tokens":             `<iframe sandbox="` + rep("allow-scripts x ", n) + `"></iframe>`,
+		"long_url_query":             `<a href="http://x.y/?` + rep("a=1&", n) + `">x</a>`,
+		"comments":                   rep("<!-- c -->", n),
+		"entities":                   rep("&amp;&#x3c;&notit;", n),
+		"void_dropped_bare":          rep("<img>", n) + rep("</a>", n),
+		"frames_in_p":                "<p>" + rep("<frame>", n) + "x</p>",
 	}
 }
 
